@@ -603,13 +603,28 @@ def c11(ctx):
                 elif r < 0.21: ops.append(('serde', 0))
                 else:
                     p = ('push', 0, ctx.rng.randrange(hg.nforms), hg.value(repeat=0.6))
-                    ops += [('heap', 0), p, ('heap', 0)]
+                    ops += [('heap', 0), p, ('heap', 0)] if hg.caps['heap'] else [p]
             ops.append(('probe', 0))
             cases.append((name, ops)); note_case(res, name, ops)
     for name, e in inner:
         for _ in range(n // 2):
             hg = HistGen(ctx, name, e)
             ops = gen_ops(ctx, hg, ctx.rng.choice([3, 6, 12]), 0, p_clear=0.07, p_probe=0.1) + [('probe', 0)]
+            cases.append((name, ops)); note_case(res, name, ops)
+    # CollapseSequence over a coded region built by merge_regions: the comparison is between a raw pushed item and an
+    # ENCODED stored one; consecutive items that are prefixes / extensions of each other, empty items, exact repeats
+    for name, e in pick_entries(lambda nm, e: e[0] == 'col' and coded(e)):
+        for _ in range(max(6, n // 3)):
+            ops, pool = trained_prefix(ctx, e, 0, 1)
+            seqs = []
+            for _ in range(ctx.rng.choice([2, 4, 7])):
+                v = list(ctx.rng.choice(pool))
+                k = ctx.rng.randrange(len(v) + 1)
+                seqs += ctx.rng.choice([[v, v[:k]], [v[:k], v], [v, v], [v, [], v], [[], v], [v, v + v[:1]]])
+            for v in seqs:
+                ops += [('push', 0, 0, v)]
+                if ctx.rng.random() < 0.3: ops.append(('probe', 0))
+            ops.append(('probe', 0))
             cases.append((name, ops)); note_case(res, name, ops)
     def oracle(e, ops, obs, mo=None):
         if e[0] == 'col': return ref_oracle(e, ops, obs, [heap_clause, clause_for(e)], mo)
@@ -1546,6 +1561,28 @@ def c15(ctx):
                     if ctx.rng.random() < 0.6:
                         a, b = ctx.rng.choice([(0, 1), (1, 0), (1, 1), (0, 0)])
                         ops.append(('cmp', a, i, ctx.rng.random() < 0.3, b, j, ctx.rng.random() < 0.3))
+            cases.append((name, ops)); note_case(res, name, ops)
+    # ... and encoded versus encoded across two containers with DIFFERENT code tables (different statistics, or a later
+    # generation): equal sequences have different bit lengths there
+    for name, e in pick_entries(lambda nm, e: e[0] == 'huf'):
+        for _ in range(n):
+            syms = [ctx.rng.randrange(8) for _ in range(4)]
+            dom = [[ctx.rng.choice(syms) for _ in range(ctx.rng.choice([0, 1, 2, 4, 6]))] for _ in range(5)]
+            dom += [v[:-1] for v in dom if v][:2]
+            skew = [syms[0]] * 40 + [syms[1]] * 9 + [syms[2]] * 3 + [syms[3]]
+            flat = syms * 5
+            ops = [('push', 2, 0, skew), ('merge', 0, [2]), ('clear', 2), ('push', 2, 0, flat), ('merge', 1, [2])]
+            ops += [('push', 0, 0, v) for v in dom] + [('push', 1, 0, v) for v in dom]
+            if ctx.rng.random() < 0.5:
+                # slot 3: the next generation of slot 0 (statistics = what was pushed into slot 0)
+                ops += [('merge', 3, [0])] + [('push', 3, 0, v) for v in dom]
+                other = 3
+            else: other = 1
+            for i in range(len(dom)):
+                for j in range(len(dom)):
+                    if ctx.rng.random() < 0.5:
+                        a, b = ctx.rng.choice([(0, other), (other, 0)])
+                        ops.append(('cmp', a, i, False, b, j, False))
             cases.append((name, ops)); note_case(res, name, ops)
     def clause_for(e):
         def clause(t, op, g, ref, sc):
